@@ -395,10 +395,54 @@ def r2_short_read(L, repo):
          all(any(isinstance(s, ast.Return) and canon(s.value) == "False" for s in h.ast.body) for h in hs) and bool(hs))
 
 
+def _seek_aliases(L, repo, ci):
+    """Methods of the capture class that are `_seek2msg` with a log line: one parameter handed on to self._seek2msg(), the
+    result truthy exactly when the positioning succeeded (folded for both outcomes, the positioning call as oracle), the
+    file not touched otherwise.  Their call sites are rewritten to the positioning call itself before the shape rules
+    read the callers."""
+    out = []
+    for nm, m in sorted(ci.methods.items()):
+        if nm in ("_seek2msg", "__init__") or len(params(m)) != 2:
+            continue
+        calls = [c for c in calls_in(m) if canon(c.func) == "self._seek2msg"]
+        if len(calls) != 1 or [canon(a) for a in calls[0].args] != [params(m)[1]] or calls[0].keywords:
+            continue
+        if any(canon(c.func).startswith("self.f.") for c in calls_in(m)):
+            continue
+        same = True
+        try:
+            for outcome in (True, False, None, 0, 7):
+                e = Ev(repo, ci.mod, env={params(m)[1]: 3}, self_cls=ci)
+                e.ignore_calls = ("log.", "logging.")
+                e.hooks = {"self._seek2msg": lambda a, o=outcome: o}
+                r = e.run_block(m.body)
+                val = r[1] if isinstance(r, tuple) else None
+                # callers test the result for truth: `if not rc`
+                if bool(val) != bool(outcome):
+                    same = False
+        except (Unknown, Raised):
+            same = False
+        if same:
+            out.append(nm)
+    if out:
+        class _Rw(ast.NodeTransformer):
+            def visit_Call(self, n):
+                self.generic_visit(n)
+                if isinstance(n.func, ast.Attribute) and n.func.attr in out and canon(n.func.value) == "self":
+                    n.func.attr = "_seek2msg"
+                return n
+        for nm, m in ci.methods.items():
+            if nm not in out:
+                _Rw().visit(m)
+        L.extra["c15_seek_aliases"] = out
+    return out
+
+
 def r3_skip_count(L, repo, hl):
     ci, sk = repo.need_method("data_dump", "DATADumpFile", "_seek2msg")
     fn = "DATADumpFile._seek2msg"
     L.fn(F, fn)
+    _seek_aliases(L, repo, ci)
     IDX = params(sk)[1]
     cfg = CFG(sk)
     loops = [n for n in ast.walk(sk) if isinstance(n, ast.For)]
